@@ -1,5 +1,7 @@
 import Scion.Model.GwRouting
 import Scion.Proofs.GwRouting
+import Scion.Model.GwPolicyText
+import Scion.Proofs.GwPolicyText
 import Scion.Gen.Gateway
 /-!
 # C42 — Gateway routing picks the most specific prefix and applies policies in order
@@ -176,6 +178,43 @@ theorem advertise_spec (p : Policy) (src dst : IA) (x : Prefix) :
 /-- the zero ISD-AS is a wildcard -/
 theorem wildcard_matches_all (ia : IA) : (IAMatcher.single ⟨0, 0⟩).matches ia = true := by
   simp [IAMatcher.matches]
+
+/-! ## Text form -/
+
+section Text
+open Scion.GwPolicyText Scion.Proofs.GwPolicyText
+
+/-- **Text clause of C42.**  For every policy the text form can express (`ruleOK`: atoms are
+words, a flag for the negation, non-empty network lists, a next hop only on advertise rules,
+single-line comments without leading/trailing blank — the generator-guarded class of DESIGN §7a)
+`UnmarshalText (MarshalText p)` yields exactly the rules of `p`: action, both ISD-AS matchers,
+the network list with its negation, next hop and comment — hence the same decisions and the same
+advertised prefixes (which depend on action, matchers and networks only).  The line format
+(tabwriter column alignment with padding 4, `# comment`, trailing blanks stripped; `bytes.Fields`,
+first `#`, `!`, `,`) is modelled; the atoms' own codecs (`addr.IA`, `netip.Prefix`, `net.IP`) are
+opaque words and tied by T1, where the real `MarshalText` output is compared with `marshal`
+byte for byte. -/
+theorem policy_text_roundtrip (rs : List TRule) (h : ∀ r ∈ rs, ruleOK r = true) :
+    unmarshal (marshal rs) = some rs :=
+  unmarshal_marshal rs h
+
+/-- every printed line has the five columns in order, whatever the column widths -/
+theorem policy_line_roundtrip (w : Nat → Nat) (r : TRule) (h : ruleOK r = true)
+    (hw : WidthsOK w r) : parseRule (trimRight (printLine w r)) = some r :=
+  (parseRule_printLine w r (ruleFacts r h) hw).1
+
+private def tr1 : TRule :=
+  ⟨.accept, false, "1-ff00:0:110".toList, true, "0-0".toList, true,
+    ["10.0.0.0/8".toList, "::/0".toList], [], "hello # x".toList⟩
+private def tr2 : TRule :=
+  ⟨.advertise, false, "0-0".toList, false, "2-0".toList, false, ["1.2.3.4/32".toList],
+    "10.0.0.1".toList, []⟩
+
+example : ruleOK tr1 = true ∧ ruleOK tr2 = true := by decide
+example : unmarshal (marshal [tr1, tr2]) = some [tr1, tr2] :=
+  policy_text_roundtrip _ (by decide)
+
+end Text
 
 /-- facts regenerated from the source: the numbering of `routing.Action` used by the harness
 and the gateway constants -/
